@@ -35,14 +35,14 @@ type writerModel struct {
 	kind string // "DefaultWriter" | "BytesWriter"
 	sink *sim.Sink
 
-	items    []witem // current epoch, in order
-	unflushed int
-	expected []byte // everything that must have reached the sink so far (all epochs)
-	epoch    int
-	nextReg  int
-	key      uint64
-	opIndex  int64
-	lastMall int64
+	items          []witem // current epoch, in order
+	unflushed      int
+	expected       []byte // everything that must have reached the sink so far (all epochs)
+	epoch          int
+	nextReg        int
+	key            uint64
+	opIndex        int64
+	lastMall       int64
 	growthsInEpoch int
 
 	sinkErr  error
